@@ -184,7 +184,10 @@ CHECKS = {
             "narrower dtype/scalar/Python objects/buffer reuse), every "
             "format x compression, all applicable readers on the same "
             "dataset; fb dtype+bits, npz bits after safe cast, tfrec widened "
-            "ints / float bits / bytes / UTF-8.",
+            "ints / float bits / bytes / UTF-8. Also: dict key order, "
+            "refused malformed writes in between, examples above 1 MiB, and "
+            "an enumerated grid (stage widen) of format x declared dtype x "
+            "narrower dtype with all special values of the narrower dtype.",
             "float128 and bool excluded; two open known findings (npz "
             "trailing NUL, tfrec float32 signalling NaN) are excluded by "
             "signature and counted.", "5 C01"),
